@@ -66,6 +66,9 @@ def _remove_unused_optional_outputs_impl(
         if len(node.outputs) > 2:
             node.outputs[2].name = ""
         node.attributes.pop("training_mode", None)
+        # Drop the omitted outputs like the general case below does: a value without a
+        # name cannot keep what is attached to it (e.g. a sharding annotation)
+        node.resize_outputs(1)
         return
 
     optional_info = []
